@@ -1,4 +1,5 @@
 pub mod c01;
+pub mod c02;
 pub mod c03;
 pub mod c04;
 pub mod c05;
@@ -6,6 +7,7 @@ pub mod c06;
 pub mod c07;
 pub mod c08;
 pub mod c09;
+pub mod c10;
 pub mod c13;
 pub mod c14;
 pub mod c15;
@@ -18,6 +20,7 @@ pub fn run(id: &str, tier: Tier, hash_out: Option<String>) -> i32 {
     match id {
         "SELFTEST" => selftest::run(),
         "C01" => c01::run(tier),
+        "C02" => c02::run(tier),
         "C03" => c03::run(tier, hash_out),
         "C04" => c04::run(tier),
         "C05" => c05::run(tier),
@@ -25,6 +28,7 @@ pub fn run(id: &str, tier: Tier, hash_out: Option<String>) -> i32 {
         "C07" => c07::run(tier),
         "C08" => c08::run(tier),
         "C09" => c09::run(tier),
+        "C10" => c10::run(tier),
         "C13" => c13::run(tier),
         "C14" => c14::run(tier),
         "C15" => c15::run(tier),
@@ -39,6 +43,7 @@ pub fn run(id: &str, tier: Tier, hash_out: Option<String>) -> i32 {
 pub fn replay_families(id: &str, tier: Tier) -> Option<Vec<Family<'static>>> {
     match id {
         "C01" => Some(c01::replay_families(tier)),
+        "C02" => Some(c02::replay_families(tier)),
         "C03" => Some(c03::replay_families(tier)),
         "C04" => Some(c04::replay_families(tier)),
         "C05" => Some(c05::replay_families(tier)),
@@ -46,6 +51,7 @@ pub fn replay_families(id: &str, tier: Tier) -> Option<Vec<Family<'static>>> {
         "C07" => Some(c07::replay_families(tier)),
         "C08" => Some(c08::replay_families(tier)),
         "C09" => Some(c09::replay_families(tier)),
+        "C10" => Some(c10::replay_families(tier)),
         "C13" => Some(c13::replay_families(tier)),
         "C14" => Some(c14::replay_families(tier)),
         "C15" => Some(c15::replay_families(tier)),
